@@ -260,7 +260,27 @@ impl Scenario for C02 {
             }
         };
         let mut coupons: Vec<u32> = vec![];
-        let phases = 1 + rng.below(3);
+        let many_exceptions = rng.chance(1, 60);
+        let lg_k = if many_exceptions { *rng.pick(&[15u8, 16]) } else { lg_k };
+        let k = 1usize << lg_k;
+        if many_exceptions {
+            // Hll4 with thousands of live exceptions (registers >= cur_min + 15): the aux map grows
+            // through several doublings (beyond 2^13 entries), then exception slots are raised again
+            let mut slots: Vec<u32> = (0..k as u32).collect();
+            rng.shuffle(&mut slots);
+            for &s in &slots {
+                coupons.push((1 << 26) | s);
+            }
+            let n_exc = k / 4 + rng.usize_below(k / 8);
+            for &s in slots.iter().take(n_exc) {
+                coupons.push(((20 + rng.below(20) as u32) << 26) | s);
+            }
+            for _ in 0..2000 {
+                let s = slots[rng.usize_below(n_exc)];
+                coupons.push(((41 + rng.below(22) as u32) << 26) | s);
+            }
+        }
+        let phases = if many_exceptions { 0 } else { 1 + rng.below(3) };
         for _ in 0..phases {
             let room = max.saturating_sub(coupons.len());
             if room == 0 {
